@@ -799,16 +799,26 @@ def run_decomp(kind, shape, spec, seed, _spy=None, **kw):
             out = D.tensor_ring(X, spec, mode=kw.get("mode", 0), svd=kw.get("svd", "truncated_svd"))
         return [shp(f) for f in out.factors] + [tuple(out.shape), tuple(int(r) for r in out.rank)], out
     if kind == "DTrAls":
-        out = D.tensor_ring_als(X, spec, n_iter_max=kw.get("n_iter_max", 1), random_state=seed)
+        if kw.get("driver") == "sampled":        # tensor_ring_als_sampled: same validator, same ring of cores (Model: tensor_ring_als)
+            out = D.tensor_ring_als_sampled(X, spec, kw.get("n_samples", 8), n_iter_max=kw.get("n_iter_max", 1), random_state=seed,
+                                            uniform_sampling=kw.get("uniform", False))
+        else:
+            out = D.tensor_ring_als(X, spec, n_iter_max=kw.get("n_iter_max", 1), random_state=seed, ls_solve=kw.get("ls_solve", "lstsq"))
         return [shp(f) for f in out.factors] + [tuple(out.shape), tuple(int(r) for r in out.rank)], out
     if kind == "DTucker":
         out = D.tucker(X, spec, n_iter_max=kw.get("n_iter_max", 2), init=kw.get("init", "svd"), random_state=seed, tol=kw.get("tol", 1e-5), svd=kw.get("svd", "truncated_svd"))
         core, factors = out
         return [shp(core)] + [shp(f) for f in factors], out
     if kind == "DCp":
-        fn = {"parafac": D.parafac, "non_negative_parafac": D.non_negative_parafac,
-              "non_negative_parafac_hals": D.non_negative_parafac_hals}[kw.get("driver", "parafac")]
-        out = fn(np.abs(X) + 0.1, spec, n_iter_max=kw.get("n_iter_max", 1), init=kw.get("init", "random"), random_state=seed)
+        drv = kw.get("driver", "parafac")
+        if drv == "randomised_parafac":          # sampled ALS: same validator and the same CP shapes (Model: parafac)
+            out = D.randomised_parafac(np.abs(X) + 0.1, spec, kw.get("n_samples", 12), n_iter_max=kw.get("n_iter_max", 1), init=kw.get("init", "random"), random_state=seed)
+        elif drv == "constrained_parafac":       # AO-ADMM with a non-negativity constraint
+            out = D.constrained_parafac(np.abs(X) + 0.1, spec, n_iter_max=kw.get("n_iter_max", 1), n_iter_max_inner=2, init=kw.get("init", "random"),
+                                        non_negative=True, random_state=seed)
+        else:
+            fn = {"parafac": D.parafac, "non_negative_parafac": D.non_negative_parafac, "non_negative_parafac_hals": D.non_negative_parafac_hals}[drv]
+            out = fn(np.abs(X) + 0.1, spec, n_iter_max=kw.get("n_iter_max", 1), init=kw.get("init", "random"), random_state=seed)
         return [shp(out.weights)] + [shp(f) for f in out.factors], out
     raise KeyError(kind)
 
@@ -987,6 +997,17 @@ def gen_cases(tier, rng):
         if prod(s) <= 200:
             for sp in [1, 2, (1,) + (2,) * (n - 1) + (1,), (2,) + (1,) * (n - 1) + (2,)]:
                 yield dict(kind="DTrAls", shape=s, spec=sp, kw=dict(n_iter_max=1))
+            # round 7: the normal-equations solver, the sampled variant (order >= 3: it samples from the n - 1 other cores), 0 sweeps, fractions
+            yield dict(kind="DTrAls", shape=s, spec=rng.choice([1, 2, "same", 0.5]), kw=dict(n_iter_max=rng.choice([0, 1, 2]), ls_solve="normal_eq"))
+            if n >= 3:
+                for sp in ([2, (2,) + (1,) * (n - 1) + (2,)] if quick else [1, 2, "same", (1,) + (2,) * (n - 1) + (1,), (2,) + (1,) * (n - 1) + (2,)]):
+                    yield dict(kind="DTrAls", shape=s, spec=sp, kw=dict(driver="sampled", n_iter_max=rng.choice([0, 1, 2]), n_samples=rng.choice([3, 8]),
+                                                                         uniform=rng.random() < 0.3))
+        # round 7: the other CP drivers that validate their rank with validate_cp_rank (sampled ALS, AO-ADMM)
+        if n >= 3 or not quick:
+            for drv in ("randomised_parafac", "constrained_parafac"):
+                for sp in ([2, "same"] if quick else [1, 2, 4, "same", 0.5]):
+                    yield dict(kind="DCp", shape=s, spec=sp, kw=dict(driver=drv, init=rng.choice(["random", "svd"]), n_iter_max=rng.choice([0, 1, 2])))
     ttm_shapes = list(grid_shapes([2], [1, 2, 3])) + rng.sample(list(grid_shapes([4], [1, 2, 3])), 40) if quick else \
         itertools.chain(grid_shapes([2, 4], [1, 2, 3]), grid_shapes([6], [1, 2]))
     for s in ttm_shapes:
@@ -1316,6 +1337,9 @@ def pred_structure(case, shapes, out):
         if t.factors[0].shape[0] != mp.factors[0].shape[0] or t.weights.shape != mp.weights.shape or \
                 any(f.shape[1] != t.weights.shape[0] for f in list(t.factors) + list(mp.factors)):
             return "CMTF: tensor part and matrix part do not share the rank / first mode", "C08_cmtf_shapes"
+        # the coupling: [[lambda; A, B, C]] and [[gamma; A, V]] share the factor of the coupled mode
+        if t.factors[0].shape != mp.factors[0].shape or float(np.max(np.abs(np.asarray(t.factors[0]) - np.asarray(mp.factors[0])), initial=0.0)) > 1e-12:
+            return "CMTF: the tensor part and the matrix part do not share the factor of the coupled mode", "C08_cmtf_shared_factor"
     if kind == "DTucker":
         core, factors = out
         X = data_tensor(s, case["seed"], kind=kw.get("data", "normal"))
@@ -1344,6 +1368,8 @@ def pred_structure(case, shapes, out):
         r = cpm.validate_cp_rank(tuple(s), spec)
         if out.weights.shape != (r,) or any(f.shape != (s[k], r) for k, f in enumerate(out.factors)):
             return f"CP shapes {[f.shape for f in out.factors]} for rank {r}", "C08_cp_shapes"
+        if kw.get("driver") in ("randomised_parafac", "constrained_parafac") and not np.array_equal(np.asarray(out.weights), np.ones(r)):
+            return f"{kw['driver']} has no normalisation option but returned weights {np.asarray(out.weights)}", "C08_cp_unit_weights"
     if kind == "DParafac2":
         w, (A, B, Cm), P = out
         r = spec
@@ -1895,6 +1921,13 @@ def pred_norm2(nc, res):
             m = _unit_columns(cp.factors, lambda k, c, cp=cp: cp.weights[c] == 0)
             if m:
                 return m, "C08_norm_unit_columns"
+    else:
+        for nm, cp in (("tensor", t), ("matrix", mp)):
+            if not np.all(np.asarray(cp.weights) == 1):
+                return f"CMTF {nm} part: weights {np.asarray(cp.weights).tolist()} are not all ones (normalize_factors=False)", "C08_norm_weights_ones"
+    # the coupling on every exit, normalised or not: both parts carry the same factor for the coupled mode
+    if t.factors[0].shape != mp.factors[0].shape or float(np.max(np.abs(np.asarray(t.factors[0]) - np.asarray(mp.factors[0])), initial=0.0)) > 1e-12:
+        return "CMTF: the tensor part and the matrix part do not share the factor of the coupled mode", "C08_cmtf_shared_factor"
     return None
 
 
